@@ -223,6 +223,9 @@ def run(chk):
     for v in prog.variants():
         vn = v.name
         chk.analysed["variants"] = chk.analysed.get("variants", 0) + 1
+        # R8 digit extraction and row messages use logical shifts only
+        from sa import shifts as _shifts
+        _shifts.check(chk, v, "R8", ["libtfhe/lwe-keyswitch-functions.cpp", "libtfhe/lwekeyswitch.cpp"], "key switch")
         from rules import c04, c14
         c14.check_lwe_op(c04._Sub(chk, "R6"), v, "lweSubTo", c14.LWE_OPS["lweSubTo"])
         f = v.fn("lweKeySwitchTranslate_fromArray")
